@@ -832,7 +832,11 @@ impl Property for C20 {
                 "kernel files and pipes".into(),
                 "reference: rrss library in-process (parse, exec_using, standard_linter, Debug)".into(),
             ],
-            components_stub: vec!["none inside the child; its world (argv, env, cwd, files, fds) is constructed by the simulator".into()],
+            components_stub: vec![
+                "none inside the child; its world (argv, env, cwd, files, fds) is constructed by the simulator".into(),
+                "the child's clocks in a third of the worlds: clock_gettime/gettimeofday/time go through a preloaded shim (sim/clockshim) that skews the wall clock and lets 0.7-90 s pass per reading".into(),
+                "the writer of standard input in slow-producer worlds: delivers the bytes in pieces, the next piece once the pipe has been emptied".into(),
+            ],
             step_unit: "process spawns",
             history_measure: "distinct (subcommand, usage fault, file fault, exit status, stdout empty?, stderr empty?) classes",
         }
